@@ -204,6 +204,19 @@ Section Trie.
       - exfalso. apply (fold_g_err r (Err e0) ltac:(discriminate) cs Hf).
       - exfalso. apply (fold_g_err r Panic ltac:(discriminate) cs Hf).
     Qed.
+
+    (* any invariant the step preserves (for entries satisfying P) holds of the result *)
+    Lemma fold_g_inv (P : entry -> Prop) (I : list (N * bnode) -> Prop) :
+      (forall cs e cs', P e -> I cs -> addf cs e = Ok cs' -> I cs') ->
+      forall es acc cs, Forall P es -> I acc -> fold_left gstep es (Ok acc) = Ok cs -> I cs.
+    Proof.
+      intros Hstep. induction es as [|e r IH]; intros acc cs Hes Hacc Hf; [inversion Hf; subst; exact Hacc|].
+      inversion Hes as [|? ? He1 Her]; subst. cbn [fold_left] in Hf. change (gstep (Ok acc) e) with (addf acc e) in Hf.
+      destruct (addf acc e) as [acc'| |] eqn:Ea.
+      - apply (IH acc' cs Her); [|exact Hf]. apply (Hstep acc e acc' He1 Hacc Ea).
+      - exfalso. apply (fold_g_err r (Err e0) ltac:(discriminate) cs Hf).
+      - exfalso. apply (fold_g_err r Panic ltac:(discriminate) cs Hf).
+    Qed.
   End Fold.
 
   Theorem add_all_spec entries cs : add_all lg entries = Ok cs ->
